@@ -248,18 +248,26 @@ fn sigmf<T: S14 + rustradio::sigmf::Type>(ty: Ty, bytes: &[u8], archive: bool, o
         let path = sc.path("capture.sigmf");
         // members: 0 meta, 1 data, 2.. unrelated; written in the generated order
         let mut members: Vec<(String, Vec<u8>)> = Vec::new();
-        members.push(("cap/capture.sigmf-meta".into(), meta.clone().into_bytes()));
+        // every third archive uses member paths beyond the 100 bytes of a tar header's name
+        // field (GNU long-name records, as GNU tar and the tar crate write them)
+        let dir: String = if bytes.len() % 3 == 2 {
+            ctx.class("archive-long-member-names");
+            format!("cap/{}", "a-rather-long-directory-name-for-a-recording/".repeat(3))
+        } else {
+            "cap/".to_string()
+        };
+        members.push((format!("{dir}capture.sigmf-meta"), meta.clone().into_bytes()));
         if malform != 2 {
-            members.push(("cap/capture.sigmf-data".into(), bytes.to_vec()));
+            members.push((format!("{dir}capture.sigmf-data"), bytes.to_vec()));
         }
         if malform == 1 {
-            members.push(("cap/second.sigmf-meta".into(), meta.clone().into_bytes()));
+            members.push((format!("{dir}second.sigmf-meta"), meta.clone().into_bytes()));
         }
         if malform == 3 {
-            members.push(("cap/capture.sigmf-data".into(), bytes.to_vec()));
+            members.push((format!("{dir}capture.sigmf-data"), bytes.to_vec()));
         }
         for i in 0..extras {
-            members.push((format!("cap/unrelated{i}.txt"), vec![b'x'; 100 + 413 * i as usize]));
+            members.push((format!("{dir}unrelated{i}.txt"), vec![b'x'; 100 + 413 * i as usize]));
         }
         // order keys -> permutation
         let mut idx: Vec<usize> = (0..members.len()).collect();
@@ -731,4 +739,4 @@ impl C14 {
     }
 }
 
-const RULE: &str = "generated: (a) Sample::parse/serialize/size on raw bit patterns for u8,u32,i32,f32,Complex; (b) FileSink(Overwrite) -> file -> FileSource for every type, onto a fresh path or over an older, longer or shorter file, 0..14k samples of arbitrary bit patterns, both sides under drip schedules on 1-3 page streams; (c) SigMFSource on recording pairs and on tar archives whose members (meta, data, up to 3 unrelated files) are written in a generated order, plus malformed variants (two metas, missing/duplicate data, wrong datatype, garbage meta) that must be rejected with Err; (d) AuEncode -> AuDecode on x in [-1,1] (and some saturating values) under drip schedules on both blocks, and AuDecode on the repository's testdata/aprs.au; (e) read segmentation: FileSource on a FIFO and TcpSource on a loopback connection whose writer releases generated chunk sizes (1-byte chunks and splits inside a sample included; the harness paces on FIONREAD / TIOCOUTQ so the single-threaded blocking reads always find data). Oracle: independent little-endian / big-endian PCM16 readers of the same bytes; exact sample sequences and counts (trailing partial sample dropped); encoder bytes == documented 28-byte header + PCM16. Non-trivial: a split inside a sample, or a stream longer than one capacity, or an archive with >= 3 members in non-canonical order, or a malformed container; distinct = hash of the case.";
+const RULE: &str = "generated: (a) Sample::parse/serialize/size on raw bit patterns for u8,u32,i32,f32,Complex; (b) FileSink(Overwrite) -> file -> FileSource for every type, onto a fresh path or over an older, longer or shorter file, 0..14k samples of arbitrary bit patterns, both sides under drip schedules on 1-3 page streams; (c) SigMFSource on recording pairs and on tar archives whose members (meta, data, up to 3 unrelated files; every third archive with member paths longer than 100 bytes) are written in a generated order, plus malformed variants (two metas, missing/duplicate data, wrong datatype, garbage meta) that must be rejected with Err; (d) AuEncode -> AuDecode on x in [-1,1] (and some saturating values) under drip schedules on both blocks, and AuDecode on the repository's testdata/aprs.au; (e) read segmentation: FileSource on a FIFO and TcpSource on a loopback connection whose writer releases generated chunk sizes (1-byte chunks and splits inside a sample included; the harness paces on FIONREAD / TIOCOUTQ so the single-threaded blocking reads always find data). Oracle: independent little-endian / big-endian PCM16 readers of the same bytes; exact sample sequences and counts (trailing partial sample dropped); encoder bytes == documented 28-byte header + PCM16. Non-trivial: a split inside a sample, or a stream longer than one capacity, or an archive with >= 3 members in non-canonical order, or a malformed container; distinct = hash of the case.";
